@@ -136,13 +136,17 @@ structure GenReq where
   signedWith : Option Nat
   deriving DecidableEq, Repr
 
+/-- key-set generations 3, 7, 11, … are *empty* key maps (all keys revoked): a signed request that
+    meets one is refused whatever it was signed with (harness: `make_keys`) -/
+def genEmpty (k : Nat) : Bool := k % 4 == 3
+
 /-- `f` of the generation-marker instance.  A request signed with the secret of generation `j`
     that meets key set `kk ≠ j` is refused (NOTAUTH, no records); otherwise every record carries
     the catalog's generation. -/
 def genResp (c : Nat) (k : Option Nat) (r : GenReq) : Obs :=
   match r.signedWith, k with
   | some j, some kk =>
-    if j == kk then { markers := List.replicate r.nrec c, sig := some true }
+    if j == kk && !genEmpty kk then { markers := List.replicate r.nrec c, sig := some true }
     else { markers := [], sig := some false }
   | _, _ => { markers := List.replicate r.nrec c, sig := none }
 
